@@ -183,6 +183,12 @@ class Carrier(Pair):
                 for v in getattr(S, name, []) or []:
                     if isinstance(v, SFloat):
                         V.assume(mk_or(v.nan, z3.IsInt(v.v)))
+        if self.time in ("us", "ms"):
+            # an array of that unit holds exactly the multiples of its resolution
+            k = {"us": 10 ** 6, "ms": 10 ** 3}[self.time]
+            for t in getattr(S, "t", []) or []:
+                if getattr(t, "f", None) is not None:
+                    V.assume(z3.IsInt(t.f * k))
         if self.data == "float32":
             for name in DATA_FIELDS:
                 for v in getattr(S, name, []) or []:
